@@ -9,6 +9,8 @@ pub fn run_file(path: &str) {
     let mut lfu: Option<VerifTinyLFU> = None;
     let mut name = String::new();
     let mut ops: Vec<J> = Vec::new();
+    let mut panicked = false;
+    std::panic::set_hook(Box::new(|_| {}));
     for raw in text.lines() {
         let parts: Vec<&str> = raw.split_whitespace().collect();
         if parts.is_empty() { continue; }
@@ -19,11 +21,20 @@ pub fn run_file(path: &str) {
                 let seeds: Vec<u64> = parts[3..7].iter().map(|s| s.parse().unwrap()).collect();
                 lfu = Some(VerifTinyLFU::with_seeds(counters, [seeds[0], seeds[1], seeds[2], seeds[3]]));
                 ops.clear();
+                panicked = false;
             }
+            "inc" if panicked => {}
+            "est" if panicked => {}
             "inc" => {
                 let h: u64 = parts[1].parse().unwrap();
                 let l = lfu.as_mut().unwrap();
-                let had = l.increment_one(h);
+                let attempt = std::panic::catch_unwind(std::panic::AssertUnwindSafe(|| l.increment_one(h)));
+                if attempt.is_err() {
+                    panicked = true;
+                    ops.push(J::obj(vec![("op", J::s("panic")), ("h", J::I(h as i128))]));
+                    continue;
+                }
+                let had = attempt.unwrap();
                 ops.push(J::obj(vec![
                     ("op", J::s("inc")), ("h", J::I(h as i128)), ("had", J::Bool(had)),
                     ("rows", J::A(l.rows().iter().map(|r| J::u8s(r)).collect())),
@@ -33,7 +44,13 @@ pub fn run_file(path: &str) {
             "est" => {
                 let h: u64 = parts[1].parse().unwrap();
                 let l = lfu.as_ref().unwrap();
-                let (e, door) = l.estimate_with_door(h);
+                let attempt = std::panic::catch_unwind(std::panic::AssertUnwindSafe(|| l.estimate_with_door(h)));
+                if attempt.is_err() {
+                    panicked = true;
+                    ops.push(J::obj(vec![("op", J::s("panic")), ("h", J::I(h as i128))]));
+                    continue;
+                }
+                let (e, door) = attempt.unwrap();
                 ops.push(J::obj(vec![("op", J::s("est")), ("h", J::I(h as i128)), ("est", J::I(e as i128)), ("door", J::Bool(door))]));
             }
             "end" => {
